@@ -319,6 +319,17 @@ def run(chk):
             chk.ob("C05-D3.chain", o["function"], o["construct"], o["ok"], o["where"], o["detail"], o["expected"])
     chk.floor("C05-D3.chain", nchain, 6, "chain-rule obligations shared with C10")
 
+    from rules import wavelet
+    from tsg.tier import pick as _pick
+    chk.rule("C05-D8.wavelet", "the derivative routines of the wavelet rule are the derivatives of its value routines: order 1 - eval_linear<1> equals d/dx eval_linear<0> (both folded into piecewise "
+                               "closed forms per point) between the kinks; order 3 - with the table interpolation kept as an uninterpreted function, the derivative form of every point is "
+                               "(du/dx) * I'(table, u) for the value form I(table, u), shortcuts on isolated abscissae only where justified; interpolate<1> == d/dx interpolate<0>")
+    nw = wavelet.linear_rule(chk, db, "C05-D8.wavelet", max_level=_pick(4, 6))
+    nw += wavelet.cubic_rule(chk, db, "C05-D8.wavelet", max_level=_pick(6, 8))
+    nw += wavelet.interpolate_rule(chk, db, "C05-D8.wavelet")
+    chk.floor("C05-D8.wavelet", nw, 60, "wavelet points with paired value / derivative forms")
+
     return ("Static rule discharge (R-SYMBOLIC by partial evaluation of loop-free basis routines into sympy closed forms, for every instantiated rule and point class 0..12): the derivative "
             "routines are the derivatives of the value routines, including the support map; argument agreement of the high-order paths; row-major layout of the gradient accumulation; the product rule across dimensions of the Sequence, Global, Wavelet and Local Polynomial gradient nests folded for 1-4 dimensions. "
-            "The assembled multi-dimensional derivative of Global/Sequence/Fourier/Wavelet grids (Lagrange caches, quotient rules, derivative tables) is algorithmic and not decided.")
+            "The one dimensional wavelet derivatives are decided against the value routines (closed forms for order 1, chain rule over the uninterpreted table interpolation for order 3). "
+            "The Lagrange caches of Global/Sequence grids, the quotient rule of the Fourier kernel and the contents of the wavelet tables are algorithmic and not decided.")
